@@ -239,6 +239,33 @@ def rw_derive(text: str, drop: List[str], add: List[str]) -> str:
   return text[:m.start()] + ('#[derive(%s)]' % ', '.join(ds) if ds else '') + text[m.end():]
 
 
+def rw_for_slice(text: str, nth: int, mutable: bool) -> str:
+  """R13: `for PAT in NAME { BODY }` over a slice parameter NAME (`&[T]` / `&mut [T]`) becomes
+       let mut verif_i: usize = 0;
+       while verif_i < NAME.len() { let PAT = &[mut] NAME[verif_i]; BODY verif_i += 1; }
+  Refuses unless NAME is a parameter whose type is a slice reference and BODY contains no `continue`."""
+  a = fn_anatomy(text)
+  fors = [l for l in a.loops if l[0] == 'for']
+  if nth >= len(fors): raise Undecided('R13: fn %s has no for-loop #%d' % (a.name, nth))
+  kw, kwo, lbo, lbc = fors[nth]
+  head = text[kwo:lbo]
+  m = re.match(r'^for\s+([A-Za-z_][A-Za-z0-9_]*)\s+in\s+([A-Za-z_][A-Za-z0-9_]*)\s*$', head)
+  if not m: raise Undecided('R13: loop header is not `for IDENT in IDENT`: %r' % head)
+  pat, name = m.group(1), m.group(2)
+  params = text[a.params_open:a.params_close + 1]
+  pm = re.search(r'\b%s\s*:\s*&\s*(mut\s+)?\[' % re.escape(name), params)
+  if not pm: raise Undecided('R13: `%s` is not a slice-reference parameter' % name)
+  if bool(pm.group(1)) != mutable: raise Undecided('R13: mutability of `%s` does not match the rule' % name)
+  body = text[lbo + 1:lbc]
+  if any(t.kind == 'id' and t.text == 'continue' for t in rsitems.lex(body)):
+    raise Undecided('R13: loop body contains `continue`')
+  new_head = 'let mut verif_i: usize = 0;\n  while verif_i < %s.len() ' % name
+  b = body.rstrip()
+  if b and not b.endswith(';') and not b.endswith('}'): b += ';'    # unit-typed tail expression of the loop body
+  new_body = '{\n    let %s = &%s%s[verif_i];' % (pat, 'mut ' if mutable else '', name) + b + '\n    verif_i += 1;\n  }'
+  return text[:kwo] + new_head + new_body + text[lbc + 1:]
+
+
 def rw_project_struct(text: str, keep: List[str]) -> str:
   """R10: keep only the named fields of a braced struct"""
   o = text.index('{')
@@ -492,6 +519,7 @@ def build_unit(name: str, variant: Optional[str] = None, canary: bool = False) -
         elif rule == 'R1': new = rw_mut_self(new)
         elif rule == 'R2': new = rw_slice_match(new)
         elif rule == 'R10': new = rw_project_struct(new, args['keep'])
+        elif rule == 'R13': new = rw_for_slice(new, args.get('nth', 0), args.get('mutable', False))
         elif rule == 'R7f': new = rw_pub_fields(new)
         elif rule == 'R11': new = rw_derive(new, args.get('drop', []), args.get('add', []))
         else:
@@ -701,7 +729,7 @@ def run_verus(ub: UnitBuild, extra_args: Optional[List[str]] = None, timeout: in
     sec = [s for s in spans if not s.get('is_primary')]
     # the function whose proof failed: the span that lies inside an extracted fn's segments
     fn_path, where = '', ''
-    for s in (sec + prim) if kind in ('pre',) else (prim + sec):
+    for s in (prim + sec):
       seg = ub.locate(s['byte_start'])
       if seg and seg.item and seg.item in ub.fn_tags:
         fn_path = seg.item
